@@ -42,7 +42,11 @@ NP_OF = {
     'C02': [('StateTrajInit', ['init']), ('StateTrajAcc', ['states', 'nstates', 'ntrajs', 'nframes', 'index_trajs', 'index_trajs_flatten', 'trajs', 'trajs_flatten']),
             ('LumpedAcc', ['microstate_trajs', 'microstate_trajs_flatten', 'state_assignment_idx', 'trajs', 'index_trajs', 'init'])],
     'C17': [('StateTrajInit', ['init']), ('UtilsRelabel', ['rename_by_index'])],
-    'C16': [('IoLimits', ['open_limits_file'])],
+    'C16': [('IoLimits', ['open_limits_file', 'open_limits_none']), ('UtilsSwap', ['_asindex', 'swapcols']),
+            ('IoOpen', ['opentxt_cols_1d', 'opentxt_cols_2d', 'opentxt_all_1d', 'opentxt_all_2d',
+                        'opentxt_limits_1d_none', 'opentxt_limits_1d_file', 'opentxt_limits_2d_none', 'opentxt_limits_2d_file',
+                        'openmicrostates_default_1d_none', 'openmicrostates_default_1d_file', 'openmicrostates_default_2d_none',
+                        'openmicrostates_default_2d_file', 'openmicrostates_int_1d_none', 'openmicrostates_int_1d_file', 'openmicrostates_nonint_1d_none'])],
     'C06': [('MdTimesApi', ['estimate_waiting_times', 'estimate_paths'])],
     'C13': [('MdCompareApi', ['compare_discretization_symmetric', 'compare_discretization_directed', 'compare_discretization_api_symmetric',
                               'compare_discretization_api_directed', 'compare_discretization_api_other'])],
@@ -62,7 +66,7 @@ SOURCE_OF = {'MsmMsm': 'msm/msm.py', 'MdCorrections': 'md/corrections.py', 'MdTi
              'StateTrajHS': 'statetraj.py', 'MsmCummat': 'msm/timescales.py', 'MsmTimes': 'msm/timescales.py', 'StateTrajBase': 'statetraj.py',
              'UtilsRelabel': 'utils/_utils.py', 'StateTrajInit': 'statetraj.py', 'StateTrajAcc': 'statetraj.py', 'LumpedAcc': 'statetraj.py', 'StateTrajEst': 'statetraj.py', 'LumpedEst': 'statetraj.py', 'MsmEstimate': 'msm/msm.py', 'MsmMcmcApi': 'msm/timescales.py', 'UtilsFiltering': 'utils/filtering.py', 'IoLimits': 'io.py',
              'UtilsDatasets': 'utils/datasets.py', 'MsmCkApi': 'msm/tests.py', 'MdCompareApi': 'md/comparison.py', 'MdTimesApi': 'md/timescales.py', 'MdCoringApi': 'md/corrections.py',
-             'MsmLinalg': 'msm/utils/linalg.py', 'MsmIts': 'msm/timescales.py'}
+             'MsmLinalg': 'msm/utils/linalg.py', 'MsmIts': 'msm/timescales.py', 'UtilsSwap': 'utils/_utils.py', 'IoOpen': 'io.py'}
 ATOL = 1e-8
 G = 1 << 53
 
@@ -232,11 +236,11 @@ def gen_cases(module, kernel, rng, n):
                 rs = m.sum(axis=1, keepdims=True)
                 rs[rs == 0] = 1
                 m = m / rs
-            nv = rng.randint(1, n_ + 1)
+            nv = rng.randint(1, n_) if rng.random() < 0.9 else n_ + 1
             c_ = {'k': kernel, 'args': None, 'floats': m.tolist(), 'nvals': nv, 'lag': rng.choice([1, 2, 5, 10]), 'mode': 'py', 'form': form}
             yield c_
         elif module == 'MsmIts':
-            ns_ = rng.randint(1, 4)
+            ns_ = rng.choice([1, 2, 2, 3, 3, 3, 4, 4])
             labs = sorted(rng.sample(range(-5, 30), ns_))
             if rng.random() < 0.3 and ns_ >= 3:
                 t = [labs[i % ns_] for i in range(rng.randint(8, 20))]          # a cyclic walk: complex eigenvalues
@@ -246,10 +250,10 @@ def gen_cases(module, kernel, rng, n):
                 if l_ not in t:
                     t.append(l_)
             lags = [rng.randint(1, 4) for _ in range(rng.randint(1, 3))]
-            if rng.random() < 0.12:
+            if rng.random() < 0.08:
                 lags[rng.randrange(len(lags))] = rng.choice([0, -1])
-            nts = rng.randint(0, ns_) if kernel == 'implied_timescales_n' else None
-            yield {'k': kernel, 'args': None, 'trajs': [t], 'lags': lags, 'nts': nts, 'reversible': rng.random() < 0.08, 'mode': 'py'}
+            nts = (rng.randint(1, max(1, ns_ - 1)) if rng.random() < 0.85 else rng.choice([0, ns_])) if kernel == 'implied_timescales_n' else None
+            yield {'k': kernel, 'args': None, 'trajs': [t], 'lags': lags, 'nts': nts, 'reversible': rng.random() < 0.05, 'mode': 'py'}
         elif module == 'MsmCkApi':
             ns_ = rng.randint(2, 3)
             labs = sorted(rng.sample(range(-5, 30), ns_))
@@ -388,6 +392,64 @@ def gen_cases(module, kernel, rng, n):
             n_ = rng.randint(1, 12)
             arr = [rng.randint(-16, 16) / 4 for _ in range(n_)]
             yield {'k': kernel, 'args': [[core.rat_str(v) for v in arr], rng.randint(1, 14)], 'floats': arr, 'mode': 'py'}
+        elif module == 'IoLimits' and kernel == 'open_limits_none':
+            yield {'k': kernel, 'args': [rng.randint(0, 50)], 'mode': 'py'}
+        elif module == 'UtilsSwap' and kernel == '_asindex':
+            yield {'k': kernel, 'args': [[rng.randint(-5, 5) for _ in range(rng.randint(0, 5))]], 'mode': 'py'}
+        elif module == 'UtilsSwap':
+            r_, c_ = rng.randint(1, 5), rng.randint(1, 5)
+            tbl = [[rng.randint(-20, 20) for _ in range(c_)] for _ in range(r_)]
+            form = rng.choice(['perm', 'perm', 'subset', 'same', 'unequal', 'range', 'negative', 'dup'])
+            old = rng.sample(range(c_), rng.randint(1, c_))
+            new = list(old)
+            rng.shuffle(new)
+            if form == 'subset':
+                new = rng.sample(range(c_), len(old))
+            elif form == 'same':
+                new = list(old)
+            elif form == 'unequal':
+                new = new + [0]
+            elif form == 'range':
+                old[rng.randrange(len(old))] = c_ + rng.randint(0, 1)
+            elif form == 'negative':
+                old[rng.randrange(len(old))] -= c_
+            elif form == 'dup' and len(old) > 1:
+                old[0] = old[1]
+            yield {'k': kernel, 'args': [tbl, old, new], 'mode': 'py'}
+        elif module == 'IoOpen':
+            r_ = rng.randint(1, 7)
+            one = ('_1d' in kernel) != (rng.random() < 0.08)          # a few inputs violate the guarded assumption of the specialisation
+            filec = rng.randint(1, 5)
+            tbl = [[rng.randint(-300, 300) for _ in range(filec)] for _ in range(r_)]
+            c_ = {'k': kernel, 'args': None, 'table': tbl, 'mode': 'py'}
+            if kernel.startswith('opentxt_cols'):
+                k_ = 1 if one else (rng.randint(2, filec) if filec > 1 else 1)
+                c_['usecols'] = rng.sample(range(filec), k_)
+                c_['violates'] = (len(c_['usecols']) == 1) != ('_1d' in kernel) and max(c_['usecols']) < filec
+            elif kernel.startswith('opentxt_all'):
+                if one:
+                    c_['table'] = [row[:1] for row in tbl]
+                elif filec == 1:
+                    c_['table'] = [row + [rng.randint(-9, 9)] for row in tbl]
+                c_['violates'] = (len(c_['table'][0]) == 1) != ('_1d' in kernel)
+            else:
+                two_d = '_2d' in kernel
+                if not two_d:
+                    c_['table'] = [row[:1] for row in tbl]
+                elif filec == 1:
+                    c_['table'] = [row + [rng.randint(-9, 9)] for row in tbl]
+                if kernel.endswith('_file'):
+                    parts, left = [], r_
+                    while left > 0:
+                        x = rng.randint(1, left)
+                        parts.append(x)
+                        left -= x
+                    if rng.random() < 0.15:
+                        parts[-1] += rng.choice([1, -1])
+                    c_['limits'] = parts
+                c_['dtype'] = {'default': None, 'int': rng.choice(['int32', 'int64']), 'nonint': 'float64'}.get(kernel.split('_')[1] if kernel.startswith('openmicro') else '', 'int64')
+            c_['nrows'] = rng.choice([None, None, rng.randint(1, r_)])
+            yield c_
         elif module == 'IoLimits':
             lim = [rng.randint(0, 9) for _ in range(rng.randint(0, 5))]
             total = sum(lim) + rng.choice([0, 0, 0, 1, -1])
@@ -529,6 +591,80 @@ def real_one(module, case):
         fn = None
     elif module in ('MsmEstimate', 'UtilsRelabel', 'StateTrajInit', 'UtilsDatasets'):
         inputs, fn = None, None
+    elif module in ('UtilsSwap', 'IoOpen'):
+        inputs, fn = None, None
+        if module == 'IoOpen':
+            import tempfile
+            import pandas as pd
+            tmpd = tempfile.mkdtemp(prefix='genval_io_')
+            fdata, flim = os.path.join(tmpd, 'data.dat'), os.path.join(tmpd, 'limits.dat')
+            with open(fdata, 'w') as fh:
+                fh.write('# a comment line\n')
+                for row in case['table']:
+                    fh.write(' '.join(str(v) for v in row) + '\n')
+            if case.get('limits') is not None:
+                with open(flim, 'w') as fh:
+                    fh.write('\n'.join(str(v) for v in case['limits']) + '\n')
+            rec = {}
+            dt = {None: None, 'int32': np.int32, 'int64': np.int64, 'float64': np.float64}[case.get('dtype')]
+            tok = {None: 16, 'int32': 32, 'int64': 64, 'float64': 0}[case.get('dtype')]
+            nrows_tok = -1 if case['nrows'] is None else case['nrows']
+
+            def canon(x):
+                x = np.asarray(x)
+                return [int(v) for v in x] if x.ndim == 1 else [[int(v) for v in row] for row in x]
+            if k.startswith('opentxt_cols') or k.startswith('opentxt_all'):
+                real_csv = pd.read_csv
+
+                def spy_csv(*a_, **kw_):
+                    try:
+                        df = real_csv(*a_, **kw_)
+                    except Exception as e_:  # noqa
+                        rec['read_csv_err'] = core.err_name(e_)
+                        raise
+                    rec['read_csv'] = [[int(v) for v in row] for row in df.values]
+                    return df
+
+                def _run():
+                    mod.pd.read_csv = spy_csv
+                    try:
+                        kw_ = {'dtype': np.int64, 'nrows': case['nrows']}
+                        if 'usecols' in case:
+                            kw_['usecols'] = case['usecols']
+                        return canon(mod.opentxt(fdata, **kw_))
+                    finally:
+                        mod.pd.read_csv = real_csv
+                inputs = {'args': [0, nrows_tok] + ([case['usecols']] if 'usecols' in case else []), '_rec3': rec}
+                if 'usecols' in case:
+                    rec['argsort'] = [int(i) for i in np.argsort(case['usecols'])]
+            else:
+                real_open = mod.opentxt
+
+                def spy_open(fname, **kw_):
+                    out_ = real_open(fname, **kw_)
+                    if fname == fdata:
+                        rec['data'] = canon(out_)
+                    else:
+                        rec['opentxt'] = canon(out_)
+                    return out_
+                has_lim = k.endswith('_file')
+
+                def _run():
+                    mod.opentxt = spy_open
+                    try:
+                        if k.startswith('opentxt_limits'):
+                            res = mod.opentxt_limits(fdata, flim if has_lim else None, dtype=dt)
+                        elif 'default' in k:
+                            res = mod.openmicrostates(fdata, flim if has_lim else None)
+                        else:
+                            res = mod.openmicrostates(fdata, flim if has_lim else None, dtype=dt)
+                        if 'default' in k and any(np.asarray(p_).dtype != np.int16 for p_ in res):
+                            raise core.HarnessError('default microstate dtype is not int16')
+                        return [canon(p_) for p_ in res]
+                    finally:
+                        mod.opentxt = real_open
+                inputs = {'args': [0] + ([1] if has_lim else []) + ([] if 'default' in k else [tok]), '_rec3': rec}
+            case = dict(case, _run=_run, _tmpd=tmpd)
     elif module in ('StateTrajBase', 'UtilsFiltering', 'IoLimits'):
         inputs, fn = None, None
         if module != 'StateTrajBase':
@@ -920,6 +1056,18 @@ def real_one(module, case):
             return [[[core.rat_str(float(v)) for v in row] for row in T], [int(v) for v in perm]]
         if module == 'UtilsFiltering':
             return [core.rat_str(float(v)) for v in mod.runningmean(np.array(case['floats'], dtype=np.float64), a[1])]
+        if module == 'IoLimits' and k == 'open_limits_none':
+            return [int(v) for v in mod.open_limits(a[0])]
+        if module == 'UtilsSwap':
+            if k == '_asindex':
+                return [int(v) for v in mod._asindex(a[0])]
+            return [[int(v) for v in row] for row in mod.swapcols(np.array(a[0], dtype=np.int64), a[1], a[2])]
+        if module == 'IoOpen':
+            import shutil
+            try:
+                return case['_run']()
+            finally:
+                shutil.rmtree(case['_tmpd'], ignore_errors=True)
         if module == 'IoLimits':
             saved = mod.opentxt
             mod.opentxt = lambda _f: np.array(case['limits'], dtype=np.int64)
@@ -1093,6 +1241,9 @@ def run_real(module, cases):
 
 
 def same(case, real, gen):
+    if case.get('violates') and 'err' not in real:
+        # outside the guarded domain of the specialisation: the translated function must say so, whatever the real one returned
+        return gen.get('err', '').startswith('Other')
     if 'err' in real or 'err' in gen:
         if real.get('err') == 'NotRun':
             return True
